@@ -40,7 +40,7 @@ def gen(seed):
     start = int(rng.choice([0, 0, 0, 3, 10]))
     widths = rng.integers(1, 12, size=m)
     bounds = np.r_[start, start + np.cumsum(widths)].astype(np.int64)
-    n = int(rng.integers(1, 60))
+    n = int(rng.integers(1, 60)) if rng.random() < 0.98 else int(rng.integers(1500, 4000))   # occasionally thousands of spikes
     on_bound = rng.choice(bounds, size=n)
     anywhere = rng.integers(bounds[0], bounds[-1], size=n)
     t = np.where(rng.random(n) < 0.4, on_bound, anywhere)
